@@ -49,4 +49,34 @@ vertex by `p` does not change the sign of the volume -/
 def InTet (a b c d p : V3 K) : Prop :=
   0 ≤ vol6 a b c d * vol6 p b c d ∧ 0 ≤ vol6 a b c d * vol6 a p c d ∧ 0 ≤ vol6 a b c d * vol6 a b p d ∧ 0 ≤ vol6 a b c d * vol6 a b c p
 
+
+/-! ### routing of `Shape::scale_dyn` (shape.rs): which `TypedShape` variant comes back
+
+Transliteration of the `scale_dyn` bodies and of the tests at the head of `Ball/Capsule/Cylinder/Cone::scaled` (3-D); the
+polyhedral fallbacks (`ConvexPolyhedron::from_convex_mesh(..)?`) are modelled as succeeding, which the correspondence checks on
+every explored input (`num_subdivisions ≥ 3`, no zero scale component). -/
+inductive Kind3 where
+  | ball | cuboid | capsule | cone | cyl | seg | tri | hs | polyh | trimesh | polyline | hf
+  | rcuboid | rcyl | rcone | rtri | rpolyh
+  | compound (parts : List Kind3)
+  deriving Repr, Inhabited
+
+/-- `neq a b` is Rust `a == b`; `!=` is its negation -/
+def uniform3 (s : V3 K) : Bool := !(!(neq s.x s.y) || !(neq s.x s.z) || !(neq s.y s.z))
+
+mutual
+def scaleDynKind (s : V3 K) : Kind3 → Kind3
+  | .ball => if !(neq s.x s.y) || !(neq s.x s.z) || !(neq s.y s.z) then .polyh else .ball
+  | .capsule => if !(neq s.x s.y) || !(neq s.x s.z) || !(neq s.y s.z) then .polyh else .capsule
+  | .cyl => if !(neq s.x s.z) then .polyh else .cyl
+  | .cone => if !(neq s.x s.z) || s.y < 0 then .polyh else .cone
+  | .rcyl => if !(neq s.x s.z) then .rpolyh else .rcyl
+  | .rcone => if !(neq s.x s.z) || s.y < 0 then .rpolyh else .rcone
+  | .compound ps => .compound (scaleDynKinds s ps)
+  | k => k
+def scaleDynKinds (s : V3 K) : List Kind3 → List Kind3
+  | [] => []
+  | k :: ks => scaleDynKind s k :: scaleDynKinds s ks
+end
+
 end Model.Acc
